@@ -411,7 +411,23 @@ func forgedInImage(w *World, di int, img []byte) bool {
 		}
 	}
 	for _, r := range AllRoots(img) {
-		if !known[r.End] {
+		if !known[r.End] && !writtenAsOneRecord(w.Disks[di], r) {
+			return true
+		}
+	}
+	return false
+}
+
+// writtenAsOneRecord: some WriteAt of the history wrote exactly the bytes
+// [r.Off, r.End).  That is how gkvlite writes a root record, and never how
+// a value lands in the file (values are written behind an item header, the
+// harness's adversarial values carry a tag in front of the look-alike, and
+// junk tails are not written at all).  Such a record is a root record the
+// code under test wrote, expected or not, and is judged, not excused.
+func writtenAsOneRecord(d *SimDisk, r *DRootRec) bool {
+	for i := range d.Log {
+		e := &d.Log[i]
+		if e.Kind == 'W' && e.Off == r.Off && e.Off+int64(e.Len) == r.End && e.N == e.Len {
 			return true
 		}
 	}
